@@ -825,6 +825,13 @@ func TestVerifC02(t *testing.T) {
 		step("x.test.", plMsg(0, plCNAME("x.test.", 382, "xa.test."), good), "prelude-block-list-disabled-record-delivered")
 		ps.setList(t, 0, true)
 		step("x.test.", plMsg(0, plCNAME("x.test.", 382, "xa.test."), good), "prelude-block-list-reenabled-record-blocked")
+		// round 8: filtering switched off through filtering/config: the answer
+		// is delivered unchanged from the moment the call has returned
+		ps.setFiltering(t, out, false)
+		step("x.test.", plMsg(0, plCNAME("x.test.", 382, "xa.test."), good), "prelude-global-filtering-off-answer-delivered")
+		step("x.test.", plMsg(0, good, badA), "prelude-global-filtering-off-answer-delivered")
+		ps.setFiltering(t, out, true)
+		step("x.test.", plMsg(0, plCNAME("x.test.", 382, "xa.test."), good), "prelude-global-filtering-on-again-record-blocked")
 		out.Emit(ps.historyCase())
 	}
 	nL := out.Scale(30, 900)
